@@ -83,11 +83,12 @@ JCanon(t) == CASE t.j = "obj" -> [j |-> "obj", kv |-> {<<t.kv[i][1], JCanon(t.kv
 \* (an OSM nested in a Change loses them too)
 RtWant(c) == Strip(c.root, Fill(c.root, c.v))
 C05Shape(c, x) == x.merr = "" /\ x.tree # << >> /\ ShapeOK(c.root, x.tree[1], Fill(c.root, c.v))
-C05Round(c, x) == x.merr = "" /\ x.uerr = "" /\ x.un # << >> /\ EqUpToTags(c.root, x.un[1], RtWant(c))
+\* (x.un holds the result of every repetition of the decode - all of them must be right)
+C05Round(c, x) == x.merr = "" /\ x.uerr = "" /\ x.un # << >> /\ \A k \in 1 .. Len(x.un) : EqUpToTags(c.root, x.un[k], RtWant(c))
 \* independently written document: version absent / number / string, unknown keys, any member order
 DocWant(c) == Strip("OSM", WholeOSM([g \in DOMAIN c.hdr \cup {"Version"} |->
                                        IF g = "Version" THEN (IF c.ver = << >> THEN "s0" ELSE c.ver[1].v) ELSE c.hdr[g]], c.items))
-C05Doc(c, x) == x.uerr = "" /\ x.un # << >> /\ EqUpToTags("OSM", x.un[1], DocWant(c))
+C05Doc(c, x) == x.uerr = "" /\ x.un # << >> /\ \A k \in 1 .. Len(x.un) : EqUpToTags("OSM", x.un[k], DocWant(c))
 SameAcross(c, g) ==
   \A a \in Cfgs(g), b \in Cfgs(g) :
      /\ (g[a].merr = "") = (g[b].merr = "") /\ (g[a].uerr = "") = (g[b].uerr = "")
